@@ -22,7 +22,7 @@ from ..dataflow import Resolver as ExprResolver
 from ..dataflow import expr_leaves, flow_of
 from ..engine import Context, Reporter
 from ..model import AnalysisError, FuncInfo, dotted, norm_text, walk_no_nested
-from ..util import call_arg, calls_in, const_value, split_cond, unparse
+from ..util import call_arg, calls_in, calls_in_node, const_value, split_cond, unparse
 from .c07 import bounds_helpers
 
 PROP = "C16"
@@ -392,6 +392,41 @@ def rule_b(ctx: Context, R: Reporter, bmap: FuncInfo):
                 msg=f"{bmap.short}: `{unparse(t)}` does not address exactly the designated coordinate on the last axis; other coordinates can change", key=f"store-index:{norm_text(t)}")
         # the value read is the same coordinate
         reads = [s for s in ast.walk(st.stmt.value)] if isinstance(st.stmt, ast.Assign) else []
+    # no whole-array write: the working copy only changes through the designated subscript stores above --
+    # no `out=<work>` / in-place method, no re-binding of the working name to a transformed array, no slice store
+    whole = []
+    first_copy = copies[0] if copies else None
+    for n in cfg.stmt_nodes():
+        if n.ast is None or n.kind not in ("stmt",):
+            continue
+        for c in calls_in_node(n):
+            if any(k.arg == "out" and isinstance(k.value, ast.Name) and k.value.id == uparam for k in c.keywords):
+                whole.append((n, c))
+            if isinstance(c.func, ast.Attribute) and isinstance(c.func.value, ast.Name) and c.func.value.id == uparam and c.func.attr in ("clip", "fill", "sort", "put", "itemset", "resize", "partition", "round") \
+                    and (c.func.attr in ("fill", "sort", "put", "itemset", "resize", "partition") or any(k.arg == "out" for k in c.keywords)):
+                whole.append((n, c))
+        st_ = n.stmt
+        if isinstance(st_, ast.AugAssign) and isinstance(st_.target, ast.Name) and st_.target.id == uparam:
+            whole.append((n, st_))
+        if isinstance(st_, ast.Assign) and isinstance(st_.targets[0], ast.Name) and st_.targets[0].id == uparam and n not in copies:
+            whole.append((n, st_))
+        if isinstance(st_, ast.Assign) and isinstance(st_.targets[0], ast.Name) and st_.targets[0].id == uparam and n in copies and n is not first_copy:
+            v = st_.value
+            is_copy = isinstance(v, ast.Call) and ((isinstance(v.func, ast.Attribute) and v.func.attr == "copy") or (ctx.res.external_name(bmap, v) or "") in ("numpy.array", "numpy.copy"))
+            if not is_copy:
+                whole.append((n, st_))
+        if isinstance(st_, (ast.Assign, ast.AugAssign)):
+            t_ = st_.targets[0] if isinstance(st_, ast.Assign) else st_.target
+            if isinstance(t_, ast.Subscript) and isinstance(t_.value, ast.Name) and t_.value.id == uparam:
+                sl_ = t_.slice
+                if isinstance(sl_, ast.Slice) or (isinstance(sl_, ast.Constant) and sl_.value is Ellipsis) or (isinstance(sl_, ast.Tuple) and all(isinstance(e, ast.Slice) or (isinstance(e, ast.Constant) and e.value is Ellipsis) for e in sl_.elts)):
+                    whole.append((n, st_))
+    for (n, c) in whole:
+        R.check("C16.b", "the working copy changes only through designated-coordinate stores", False, bmap, c,
+                msg=f"{bmap.short}: `{unparse(c)[:60]}` rewrites the whole working array: coordinates without a boundary condition are changed too (an out-of-range strict coordinate is "
+                    f"silently moved into [0,1] and then passes the bounds check)", key=f"whole-array-write:{norm_text(c)[:40]}")
+    if not whole:
+        R.check("C16.b", "the working copy changes only through designated-coordinate stores", True, bmap, bmap.node, key="whole-array-write")
     rets = [n for n in cfg.stmt_nodes() if n.kind == "stmt" and isinstance(n.stmt, ast.Return)]
     for rn in rets:
         ok = isinstance(rn.stmt.value, ast.Name) and rn.stmt.value.id == uparam and any(cfg.dominates(c.id, rn.id) for c in copies)
